@@ -199,7 +199,8 @@ impl ser::SerializeMap for Entries {
     type Ok = Value;
     type Error = RecError;
     fn serialize_key<T: ?Sized + Serialize>(&mut self, k: &T) -> Result<(), RecError> {
-        self.key = Some(k.serialize(self.ser)?);
+        // like serde_json's and serde_smile's map key serializers, the key position is always human readable
+        self.key = Some(k.serialize(RecSer { human_readable: true })?);
         Ok(())
     }
     fn serialize_value<T: ?Sized + Serialize>(&mut self, v: &T) -> Result<(), RecError> {
